@@ -25,13 +25,14 @@ from .common import make_resolver
 from .lru import enumerate_paths
 
 LEVEL = {
-    "decided": "C19 (necessary clauses): (R19.1) await_each awaits one awaitable per consumer step in input order; "
+    "decided": "C19 (shape tables by abstract evaluation): (R19.1) await_each awaits one awaitable per consumer step in input order; "
                "(R19.2) any_iter resolves the outer awaitable first and treats items identically in its sync and async "
                "branch; (R19.3) apply awaits each argument exactly once, preserving order and keyword names, and returns "
                "the function's value; (R19.4) sync passes coroutine functions through and otherwise wraps with one "
                "call, a conditional await and no handler.",
     "not_decided": "equality of the produced items across the 12 input-shape combinations (value level).",
-    "technique": "static analysis: sibling-branch agreement and await-once dataflow",
+    "technique": "static analysis: finite-domain abstract evaluation of the adapters over the input-shape lattice "
+                 "(awaitable/plain x async/sync iterable x awaitable/plain item), event traces compared with the specification",
 }
 
 
